@@ -71,6 +71,10 @@ let parse_ops (t : toks) : op list =
   done;
   List.rev !ops
 
+(* flavour whose assignment operators are defaulted (trivial): the real code cannot log them, so the
+   Assign events of the model are left out of what is compared (values are still compared) *)
+let silent_assign = ref false
+
 let sname = function Dead -> "D" | Live -> "L" | MovedFrom -> "M"
 let kname = function KValue -> "v" | KCopy -> "c" | KMove -> "m"
 let osrc = function None -> "" | Some s -> sname s
@@ -86,6 +90,7 @@ let render_proj (toks : (loc * ptok) list) : string =
   let tbl = Hashtbl.create 16 in
   List.iter (fun (l, tk) ->
       match l with
+      | _ when !silent_assign && (match tk with PAssign _ -> true | _ -> false) -> ()
       | Slot (c, i) when int_of_nat c < 2 ->
         let key = (int_of_nat c, int_of_nat i) in
         let old = try Hashtbl.find tbl key with Not_found -> [] in
@@ -120,6 +125,7 @@ let render_raw (evs : event list) : string =
     | Assign (l, h) -> how_s "A" l h
     | Destroy l -> let n = name l in forget l; "D:" ^ n
     | Use l -> "U:" ^ name l in
+  let evs = if !silent_assign then List.filter (function Assign _ -> false | _ -> true) evs else evs in
   if evs = [] then "-" else join (List.map one evs)
 
 let render_step raw (r : report) : string =
@@ -132,6 +138,7 @@ let render_step raw (r : report) : string =
     (int_of_nat r.r_tmp) (b2s r.r_ok)
 
 let flavour_of family =
+  silent_assign := false;
   let fl = String.sub family 3 (String.length family - 3) in
   let iv = String.sub family 0 3 = "iv_" in
   (fl <> "c", iv)
@@ -192,7 +199,8 @@ let own_family family =
     | "exp" -> [0; 1]       (* expected<T, E> = variant<T, E> *)
     | "fun" -> [1; 2]       (* inplace_function holding C1 / C2, 0 = empty *)
     | _ -> raise Not_found in
-  (fl <> "c", trk_of (List.map nat_of_int trk), kind = "fun")
+  silent_assign := (fl = "t");
+  (fl = "cm" || fl = "m", trk_of (List.map nat_of_int trk), kind = "fun")
 
 let run_own op t =
   let family = next_str t in
@@ -244,6 +252,7 @@ let parse_aops (t : toks) : aop list =
   List.rev !ops
 
 let run_agg op t =
+  silent_assign := false;
   let family = next_str t in
   let ops = parse_aops t in
   let fl = String.sub family 3 (String.length family - 3) <> "c" in
